@@ -475,10 +475,10 @@ def main(argv=None):
     res, sk = R.run_sharded(worker, comb, budget)
     rep.add_results("combine", res, sk, exhaustive=True)
     import superrec2.utils.dynamic_programming as m3
-    rep.functions = R.source_digest(m3.Entry.__init__, m3.Entry.update, m3.Entry.combine, m3.Entry.infos, m3.Entry.value,
+    rep.functions = R.safe_digest(lambda: R.source_digest(m3.Entry.__init__, m3.Entry.update, m3.Entry.combine, m3.Entry.infos, m3.Entry.value,
                                     m3.EntryProxy.update, m3.EntryProxy.value, m3.EntryProxy.infos, m3.EntryProxy.combine,
                                     m3.EntryProxy._get_real, m3.TableProxy.__getitem__, m3.TableProxy.__setitem__,
-                                    m3.Table.entry, m3._generate_table)
+                                    m3.Table.entry, m3._generate_table))
     rep.bounds = {
         "values": "every candidate value is an unconstrained symbolic integer (one z3 Int each)",
         "inductive step": "every policy pair (2x3), pre-state = symbolic or initial value x tag subset allowed by the policy, one update with tag in {none,a,b}",
